@@ -44,7 +44,8 @@ func c19(c *Ctx) {
 		fmt.Sscan(v, &rounds)
 	}
 	if rounds > 0 {
-		c19RunHammer(c, os.Args[0], "plain", rounds, 240*time.Second)
+		c19RunHammer(c, os.Args[0], "c19-hammer", "plain", rounds, 240*time.Second)
+		c19RunHammer(c, os.Args[0], "c19-maprace", "maprace", 3, 120*time.Second)
 	}
 	if c.Tier == "thorough" && os.Getenv("VERIF_C19_NORACE") == "" {
 		c19Race(c)
@@ -52,7 +53,7 @@ func c19(c *Ctx) {
 }
 
 // c19RunHammer runs the hammer in a child process and folds its results into the parent's report.
-func c19RunHammer(c *Ctx, exe, mode string, rounds int, timeout time.Duration) (stderrTail string, ran bool) {
+func c19RunHammer(c *Ctx, exe, sub, mode string, rounds int, timeout time.Duration) (stderrTail string, ran bool) {
 	dir := filepath.Join(c.Out, "hammer-"+mode)
 	os.RemoveAll(dir)
 	os.MkdirAll(dir, 0755)
@@ -64,12 +65,15 @@ func c19RunHammer(c *Ctx, exe, mode string, rounds int, timeout time.Duration) (
 	}
 	ctx, cancel := context.WithTimeout(context.Background(), timeout)
 	defer cancel()
-	cmd := exec.CommandContext(ctx, exe, "c19-hammer", "-seed", fmt.Sprint(c.Seed), "-n", fmt.Sprint(rounds), "-tier", c.Tier, "-out", dir)
+	cmd := exec.CommandContext(ctx, exe, sub, "-seed", fmt.Sprint(c.Seed), "-n", fmt.Sprint(rounds), "-tier", c.Tier, "-out", dir)
 	cmd.Stderr = ef
 	cmd.Stdout = ef
-	cmd.Env = append(os.Environ(), "GORACE=halt_on_error=0 history_size=4", "GOTRACEBACK=single")
+	tmp := filepath.Join(dir, "tmp") // node data directories of the child; removed even when it dies
+	os.MkdirAll(tmp, 0755)
+	cmd.Env = append(os.Environ(), "GORACE=halt_on_error=0 history_size=4", "TMPDIR="+tmp)
 	runErr := cmd.Run()
 	ef.Close()
+	os.RemoveAll(tmp)
 	raw, _ := os.ReadFile(errFile)
 	text := string(raw)
 	tail := text
@@ -81,12 +85,15 @@ func c19RunHammer(c *Ctx, exe, mode string, rounds int, timeout time.Duration) (
 		json.Unmarshal(b, &res)
 	}
 	for k, v := range res.Counts {
-		c.Stats[strings.Replace(k, "hammer:", "hammer-"+mode+":", 1)] += v
+		if strings.HasPrefix(k, "hammer:") {
+			k = "hammer-" + mode + ":" + strings.TrimPrefix(k, "hammer:")
+		}
+		c.Stats[k] += v
 	}
 	c.Stats["hammer-"+mode+":rounds-completed"] += res.Completed
 	c.Stats["hammer-"+mode+":rounds-inconclusive(timeout)"] += res.Inconclusive
 	for _, f := range res.Fails {
-		c.Fail(f.Sig, fmt.Sprintf("[%s hammer, round %d, seed %d] %s", mode, f.Round, c.Seed, f.Detail), map[string]interface{}{"rerun": fmt.Sprintf("hx c19-hammer -seed %d -n %d -out DIR", c.Seed, rounds)})
+		c.Fail(f.Sig, fmt.Sprintf("[%s hammer, round %d, seed %d] %s", mode, f.Round, c.Seed, f.Detail), map[string]interface{}{"rerun": fmt.Sprintf("hx %s -seed %d -n %d -out DIR", sub, c.Seed, rounds)})
 	}
 	switch {
 	case ctx.Err() != nil:
@@ -107,12 +114,30 @@ func c19RunHammer(c *Ctx, exe, mode string, rounds int, timeout time.Duration) (
 		} else if first != "" {
 			kind = "engine-goroutine"
 		}
-		// the frames of /repo at the top of the crashing goroutine
+		// the /repo frames of the crashing goroutine (the first goroutine block of the dump)
 		var frames []string
+		inBlock := false
 		for _, l := range strings.Split(text, "\n") {
-			if strings.HasPrefix(l, "github.com/LemoFoundationLtd/lemochain-core/") && len(frames) < 6 {
-				frames = append(frames, strings.TrimPrefix(l, "github.com/LemoFoundationLtd/lemochain-core/"))
+			if strings.HasPrefix(l, "goroutine ") {
+				if inBlock {
+					break
+				}
+				inBlock = true
+				continue
 			}
+			if inBlock && strings.HasPrefix(l, "github.com/LemoFoundationLtd/lemochain-core/") && len(frames) < 6 {
+				f := strings.TrimPrefix(l, "github.com/LemoFoundationLtd/lemochain-core/")
+				if i := strings.LastIndex(f, "("); i > 0 {
+					f = f[:i]
+				}
+				if j := strings.LastIndex(f, "/"); j >= 0 {
+					f = f[j+1:]
+				}
+				frames = append(frames, strings.NewReplacer("(*", "", ")", "").Replace(f))
+			}
+		}
+		if len(frames) > 0 {
+			kind += "/" + frames[0]
 		}
 		c.Fail("c19/panic/"+kind, fmt.Sprintf("[%s hammer, seed %d] child process died (%v) after %d completed rounds: %s; top /repo frames: %s", mode, c.Seed, runErr, res.Completed, first, strings.Join(frames, " <- ")), map[string]interface{}{"stderr_tail": tail})
 	}
@@ -127,24 +152,35 @@ func c19Facts(c *Ctx) {
 		return
 	}
 	_ = s
-	bad := map[string][]string{}
+	bad := map[string][]string{} // "<var>/<func>" -> rows
+	var order []string
 	for _, r := range rows {
 		c.Op(r.String(), "ok")
-		if r.Held {
+		switch {
+		case r.Held:
 			c.Count("fact:" + r.Var + ":locked")
-		} else {
+		case r.Entry == "-":
+			c.Count("fact:" + r.Var + ":unlocked-in-constructor/start-up")
+		default:
 			c.Count("fact:" + r.Var + ":UNLOCKED")
-			bad[r.Var] = append(bad[r.Var], r.String())
+			k := r.Var + "/" + r.Fn
+			if bad[k] == nil {
+				order = append(order, k)
+			}
+			bad[k] = append(bad[k], r.String())
 		}
 	}
 	c.Op("access-end", "ok")
-	for _, v := range c19Vars {
-		if rs := bad[v.Name]; len(rs) > 0 {
-			if len(rs) > 12 {
-				rs = append(rs[:12], "…")
+	for _, k := range order {
+		rs := bad[k]
+		v := k[:strings.Index(k, "/")]
+		lock := ""
+		for _, x := range c19Vars {
+			if x.Name == v {
+				lock = x.Lock
 			}
-			c.Fail("c19/unlocked-access/"+v.Name, "shared variable "+v.Name+" is reached without its lock ("+v.Lock+") on some path; fact-table rows with lockHeld=false", map[string]interface{}{"rows": rs})
 		}
+		c.Fail("c19/unlocked-access/"+k, "shared variable "+v+" is accessed in "+k[len(v)+1:]+" without its lock ("+lock+") on "+fmt.Sprint(len(rs))+" entry path(s); fact-table rows with lockHeld=false: "+strings.Join(rs, " ; "), map[string]interface{}{"rows": rs})
 	}
 }
 
